@@ -82,6 +82,7 @@ fn items(list: &[syn::Item], depth: usize) -> Value {
                     if let syn::Expr::Lit(l) = &*c.expr {
                         if let syn::Lit::Str(s) = &l.lit {
                             v["str_len"] = json!(s.value().len());
+                            v["str_sha"] = json!(crate::hash_hex(s.value().as_bytes()));
                         }
                     }
                     consts.push(v);
